@@ -20,9 +20,13 @@ pub struct Fault {
     /// index of the I/O call (seeks and reads both count) at which the fault fires
     pub at: u64,
     pub kind: FaultKind,
+    /// which io::ErrorKind an Error fault carries (index into ERROR_KINDS)
+    pub ekind: u8,
     /// permanent: every call from `at` on fails the same way
     pub permanent: bool,
 }
+
+pub const ERROR_KINDS: [io::ErrorKind; 8] = [io::ErrorKind::Other, io::ErrorKind::Unsupported, io::ErrorKind::WouldBlock, io::ErrorKind::UnexpectedEof, io::ErrorKind::TimedOut, io::ErrorKind::PermissionDenied, io::ErrorKind::InvalidData, io::ErrorKind::BrokenPipe];
 
 #[derive(Clone, Copy, Debug, PartialEq, Eq)]
 pub enum Op {
@@ -83,10 +87,10 @@ impl Reader {
     }
 }
 
-fn fault_for(st: &State, call: u64) -> Option<FaultKind> {
+fn fault_for(st: &State, call: u64) -> Option<(FaultKind, io::ErrorKind)> {
     for f in &st.faults {
         if f.at == call || (f.permanent && call >= f.at) {
-            return Some(f.kind);
+            return Some((f.kind, ERROR_KINDS[f.ekind as usize % ERROR_KINDS.len()]));
         }
     }
     None
@@ -116,14 +120,14 @@ impl Reader {
         st.calls += 1;
         let mut limit = usize::MAX;
         match fault_for(&st, call) {
-            Some(FaultKind::Error) => {
+            Some((FaultKind::Error, ek)) => {
                 st.fired += 1;
                 if st.logging {
                     st.log.push(Op::Fault { call, kind: FaultKind::Error });
                 }
-                return Err(io::Error::new(io::ErrorKind::Other, "injected read error"));
+                return Err(io::Error::new(ek, "injected read error"));
             }
-            Some(FaultKind::Eof) => {
+            Some((FaultKind::Eof, _)) => {
                 if !buf.is_empty() {
                     st.fired += 1;
                     if st.logging {
@@ -132,7 +136,7 @@ impl Reader {
                     return Ok(0);
                 }
             }
-            Some(FaultKind::Short) => {
+            Some((FaultKind::Short, _)) => {
                 limit = 1.max(buf.len() / 2);
             }
             None => {}
@@ -174,12 +178,12 @@ impl Reader {
         let call = st.calls;
         st.calls += 1;
         match fault_for(&st, call) {
-            Some(FaultKind::Error) | Some(FaultKind::Eof) => {
+            Some((FaultKind::Error, ek)) | Some((FaultKind::Eof, ek)) => {
                 st.fired += 1;
                 if st.logging {
                     st.log.push(Op::Fault { call, kind: FaultKind::Error });
                 }
-                return Err(io::Error::new(io::ErrorKind::Other, "injected seek error"));
+                return Err(io::Error::new(ek, "injected seek error"));
             }
             _ => {}
         }
